@@ -64,6 +64,15 @@ theorem put_rejected (win : Win) (s : Screen) (c r : Int) (p : Win.Put)
   rw [origin_eq_absOrigin] at hv
   exact put_invisible win s c r p hv
 
+/-- `New` with non-negative sizes: however its switches clamp, the new window's region is exactly
+the requested rectangle (placed at the parent's origin + offset) intersected with the parent's
+region — oversized or displaced children are cut, never enlarged. -/
+theorem new_region (win : Win) (c r W H : Int) (hW : 0 ≤ W) (hH : 0 ≤ H) (x y : Int) :
+    covers (win.new c r W H) x y ↔
+      (((win.origin).1 + c ≤ x ∧ x < (win.origin).1 + c + W ∧
+        (win.origin).2 + r ≤ y ∧ y < (win.origin).2 + r + H) ∧ covers win x y) := by
+  rw [origin_eq_absOrigin]; exact covers_new win c r W H hW hH x y
+
 /-- The screen's own index expressions `s.buf[row][col]` are in range whenever the guards pass
 (no Go panic), given the shape `resize` establishes; and a write preserves that shape. -/
 theorem screen_index_ok (s : Screen) (hwf : s.WF) (col row : Int) (hg : s.guard col row = true) :
@@ -142,6 +151,16 @@ theorem print_is_layout (lib : Lib) (rm : Bool) (win : Win) (segs : List (Nat ×
         (printOps lib rm win segs).1 ++ dropped ∧ ∀ o ∈ dropped, win.height < o.row :=
   printGo_layout lib rm win.width win.height (flatten segs) 0 0
 
+/-- **print_order.** With positive cluster widths the `SetCell` calls of `Print` are, in call
+order, strictly increasing in (row, col). -/
+theorem print_order (lib : Lib) (rm : Bool) (win : Win) (segs : List (Nat × List Raw))
+    (hw : ∀ it ∈ printItems lib rm (flatten segs), it.brk = false → 0 < it.w) :
+    List.Pairwise before (printOps lib rm win segs).1 := by
+  obtain ⟨d, hd, _⟩ := print_is_layout lib rm win segs
+  have := layout_pairwise win.width (printItems lib rm (flatten segs)) 0 0 hw
+  rw [hd] at this
+  exact (List.pairwise_append.1 this).1
+
 /-- Reading order is strict: with positive cluster widths every later call is strictly after every
 earlier one in (row, col) order. -/
 theorem layout_strict_order (cols : Int) (l : List Item) (col row : Int)
@@ -190,6 +209,15 @@ theorem wrap_is_layout (lib : Lib) (rm : Bool) (win : Win) (segs : List (Nat × 
   have hstored : wrapRemeasured = true := by decide
   simp only [wrapOps, hstored]
   exact wrapGo_layout lib rm win.width win.height segs 0 0
+
+/-- **print_order (Wrap).** Likewise the calls of `Wrap` are strictly increasing in (row, col). -/
+theorem wrap_order (lib : Lib) (rm : Bool) (win : Win) (segs : List (Nat × List (List Raw)))
+    (hw : ∀ seg ∈ wrapAllItems lib rm segs, ∀ it ∈ seg, it.brk = false → 0 < it.w) :
+    List.Pairwise before (wrapOps lib rm win segs).1 := by
+  obtain ⟨d, hd, _⟩ := wrap_is_layout lib rm win segs
+  have := layoutWrap_pairwise win.width (wrapAllItems lib rm segs) 0 0 hw
+  rw [hd] at this
+  exact (List.pairwise_append.1 this).1
 
 /-- Single-line layouts write left to right on one row, advancing by the widths. -/
 theorem layoutLine_order (cols row : Int) (l : List Item) (col : Int) (hw : ∀ it ∈ l, 0 < it.w) :
